@@ -112,9 +112,12 @@ func (st *SocketServer) acceptConnection() {
 			}
 			continue
 		}
-		if err = AcceptConnection(conn, &st.ServerConfig, st.secure, st.upstreams); err != nil {
-			log.WithError(err).Errorf("Error accepting connection: %v", err)
-		}
+		// Handshake off the accept loop, so that a slow or silent peer delays only its own session
+		go func(conn net.Conn) {
+			if err := AcceptConnection(conn, &st.ServerConfig, st.secure, st.upstreams); err != nil {
+				log.WithError(err).Errorf("Error accepting connection: %v", err)
+			}
+		}(conn)
 	}
 }
 
